@@ -285,4 +285,82 @@ theorem opVmp_phase (sk : List Poly) (d a : Buf) (m : PMat) (lo l : Nat) (hd : d
   unfold limbOr0
   rw [mapRange_getD _ _ _ _ hl, hcols]
 
+/-! ### the input side of `glwe_keyswitch_internal`: `a_dft` holds the mask limbs of the ciphertext -/
+
+/-- column loop whose written value depends on the (invariant) shape of the accumulator -/
+theorem foldl_setActG (G : Nat → Nat → Nat → Col) (L : List Nat) (b : Buf) (hb : b.WF) (hL : L.Nodup) (hLc : ∀ c ∈ L, c < b.cols)
+    (hg : ∀ c, (G b.n b.size c).length = b.size) :
+    let r := L.foldl (fun (acc : Buf) c => acc.setAct c (G acc.n acc.size c)) b
+    r.WF ∧ r.cols = b.cols ∧ r.size = b.size ∧ r.n = b.n ∧ ∀ c, r.act c = if c ∈ L then G b.n b.size c else b.act c := by
+  induction L generalizing b with
+  | nil => simp [hb]
+  | cons c0 rest ih =>
+    have hc0 : c0 < b.cols := hLc c0 List.mem_cons_self
+    have hnd := List.nodup_cons.mp hL
+    have hwf := Buf.setAct_WF b hb c0 hc0 (G b.n b.size c0) (hg c0)
+    have := ih (b.setAct c0 (G b.n b.size c0)) hwf hnd.2 (fun c hc => hLc c (List.mem_cons_of_mem _ hc)) hg
+    simp only [List.foldl_cons]
+    refine ⟨this.1, this.2.1, this.2.2.1, this.2.2.2.1, ?_⟩
+    intro c
+    rw [this.2.2.2.2 c]
+    by_cases hcr : c ∈ rest
+    · simp [hcr]
+      rfl
+    · by_cases hcc : c = c0
+      · subst hcc
+        simp only [hcr, if_false, List.mem_cons, true_or, if_true]
+        exact Buf.act_setAct_same b hb c hc0 _ (hg c)
+      · simp only [hcr, if_false, List.mem_cons, hcc, false_or]
+        exact Buf.act_setAct_other b c0 c _ hcc
+
+/-- `vec_znx_dft_apply(1, 0, …)` into a result of the same size is a copy -/
+theorem dftApplyCol_id (n : Nat) (a : Col) : dftApplyCol n 1 0 a.length a = a := by
+  unfold dftApplyCol
+  apply List.ext_getElem
+  · simp
+  · intro j h1 h2
+    simp at h1
+    simp [h1, List.getD_eq_getElem?_getD]
+
+theorem zeroBuf_WF (n cols size : Nat) : (zeroBuf n cols size).WF := by
+  refine ⟨by simp [zeroBuf], Nat.le_refl _, ?_⟩
+  intro c hc
+  simp only [zeroBuf] at hc ⊢
+  rw [List.getD_eq_getElem?_getD, List.getElem?_replicate]
+  simp [hc, zeroCol]
+
+theorem flat_getD (b : Buf) (j : Nat) (h : j < b.size * b.cols) (d : Poly) :
+    b.flat.getD j d = limbOr0 b.n (b.act (j % b.cols)) (j / b.cols) := by
+  unfold Buf.flat
+  rw [mapRange_getD _ _ _ _ h]
+
+theorem flat_length (b : Buf) : b.flat.length = b.size * b.cols := by simp [Buf.flat]
+
+theorem getD_length_of_all {n : Nat} (l : List Poly) (j : Nat) (h : ∀ p ∈ l, p.length = n) : (l.getD j (zeroP n)).length = n := by
+  rw [List.getD_eq_getElem?_getD]
+  cases hj : l[j]? with
+  | none => simp
+  | some p => simpa using h p (List.mem_of_getElem? hj)
+
+/-- every entry of a prepared matrix whose stored limbs have `n` coefficients has `n` coefficients
+(missing entries read as the zero polynomial) -/
+theorem entry_length (m : PMat) (n : Nat) (hn : m.n = n) (h : ∀ row ∈ m.data, ∀ col ∈ row, ∀ p ∈ col, p.length = n) (j q : Nat) :
+    (m.entry j q).length = n := by
+  unfold PMat.entry limbOr0
+  rw [hn]
+  apply getD_length_of_all
+  intro p hp
+  have hcolmem : ∀ (row : List Col) (k : Nat), (∀ col ∈ row, ∀ p ∈ col, p.length = n) → ∀ p ∈ row.getD k [], p.length = n := by
+    intro row k hrow p hp
+    rw [List.getD_eq_getElem?_getD] at hp
+    cases hk : row[k]? with
+    | none => simp [hk] at hp
+    | some col => simp [hk] at hp; exact hrow col (List.mem_of_getElem? hk) p hp
+  apply hcolmem (m.data.getD j []) (q % m.colsOut) _ p hp
+  intro col hcol
+  rw [List.getD_eq_getElem?_getD] at hcol
+  cases hj : m.data[j]? with
+  | none => simp [hj] at hcol
+  | some row => simp [hj] at hcol; exact h row (List.mem_of_getElem? hj) col hcol
+
 end Ks
